@@ -325,10 +325,28 @@ func (in *Interp) intrinsic(fn *ssa.Function, args []Value) (Value, bool) {
 		tk := zero(fn.Signature.Results().At(0).Type().(*types.Pointer).Elem()).(Struct)
 		var cell Value = tk
 		tk[0] = &Chan{tick: &cell, cap: 1}
+		in.armed = append(in.armed, armedWait{at: in.timeNow().(Struct)[1].(*Term), d: args[0].(*Term), kind: "ticker"})
 		return &cell, true
 	case "(*time.Ticker).Stop", "(*time.Ticker).Reset":
 		in.stub(name)
 		return nil, true
+	case "time.NewTimer":
+		// one-shot timer: channel fires when the harness ticks; the arming (instant, duration) is recorded
+		in.stub(name)
+		tk := zero(fn.Signature.Results().At(0).Type().(*types.Pointer).Elem()).(Struct)
+		var cell Value = tk
+		tk[0] = &Chan{tick: &cell, cap: 1}
+		in.armed = append(in.armed, armedWait{at: in.timeNow().(Struct)[1].(*Term), d: args[0].(*Term), kind: "timer"})
+		return &cell, true
+	case "(*time.Timer).Reset":
+		in.stub(name)
+		in.armed = append(in.armed, armedWait{at: in.timeNow().(Struct)[1].(*Term), d: args[1].(*Term), kind: "timer-reset"})
+		return B(true), true
+	case "time.After":
+		in.stub(name)
+		in.armed = append(in.armed, armedWait{at: in.timeNow().(Struct)[1].(*Term), d: args[0].(*Term), kind: "after"})
+		var cell Value = Struct{}
+		return &Chan{tick: &cell, cap: 1}, true
 	case "time.AfterFunc":
 		in.stub(name)
 		var cell Value = zero(fn.Signature.Results().At(0).Type().(*types.Pointer).Elem())
@@ -1003,6 +1021,14 @@ func (in *Interp) harnessAPI(fn *ssa.Function, args []Value) (Value, bool) {
 		r, _ := args[0].(Str).concrete()
 		in.cur.role = r
 		return nil, true
+	case "ArmedWaits":
+		return C(64, uint64(len(in.armed))), true
+	case "ArmInstant":
+		return in.armed[in.concrete(args[0].(*Term), "ArmInstant")].at, true
+	case "ArmDuration":
+		return in.armed[in.concrete(args[0].(*Term), "ArmDuration")].d, true
+	case "ArmIsTicker":
+		return B(in.armed[in.concrete(args[0].(*Term), "ArmIsTicker")].kind == "ticker"), true
 	case "TimerStub":
 		in.timerStub = args[0].(*Term).isTrue()
 		return nil, true
